@@ -321,41 +321,24 @@ impl<A: Clone> RangeMap<A> {
                         let overlap = max(old_range_.start, removed_range_.start)
                             ..=min(old_range_.end, removed_range_.end);
 
-                        // Three cases to consider:
-                        //
-                        // (1) overlap starts from the left end of old range:
-                        //     update A, increment B
-                        //
-                        // (2) overlap ends at the right end of old range:
-                        //     push left of overlap, increment A
-                        //
-                        // (3) overlap is in the middle of old range:
-                        //     push left of overlap, update A
+                        // Keep the part of the old range that is before the overlap (if any),
+                        // then drop the overlap. Whichever of the two ranges ends with the overlap
+                        // is exhausted: if it's the old range move on to the next old range (the
+                        // removed range may still overlap with the next old ranges), otherwise
+                        // continue with the rest of the old range and the next removed range.
+                        if old_range_.start < *overlap.start() {
+                            new_ranges.push(Range {
+                                start: old_range_.start,
+                                end: *overlap.start() - 1,
+                                value: old_range_.value.clone(),
+                            });
+                        }
 
-                        // (1)
-                        if *overlap.start() == old_range_.start {
+                        if *overlap.end() == old_range_.end {
+                            old_range = old_ranges_iter.next();
+                        } else {
                             old_range_.start = *overlap.end() + 1;
                             removed_range = removed_ranges_iter.next();
-                        }
-                        // (2)
-                        else if *overlap.end() == old_range_.end {
-                            let new_range = Range {
-                                start: old_range_.start,
-                                end: *overlap.start() - 1,
-                                value: old_range_.value.clone(),
-                            };
-                            new_ranges.push(new_range);
-                            old_range = old_ranges_iter.next();
-                        }
-                        // (3)
-                        else {
-                            let new_range = Range {
-                                start: old_range_.start,
-                                end: *overlap.start() - 1,
-                                value: old_range_.value.clone(),
-                            };
-                            new_ranges.push(new_range);
-                            old_range_.start = overlap.end() + 1;
                         }
                     }
                 }
